@@ -49,7 +49,7 @@ ALL_ACTIONS = None
 def cfg_consts(run, cfg):
     txt = open(os.path.join(run.specdir, cfg)).read()
     out = {}
-    for k in ("N", "Pre", "Limit", "Replicas0"):
+    for k in ("N", "Pre", "Limit", "Replicas0", "Budget"):
         m = re.search(r"\b%s = (\d+)" % k, txt)
         out[k] = int(m.group(1))
     return out
@@ -57,7 +57,7 @@ def cfg_consts(run, cfg):
 
 def ctl_cfg(run, cfg, probe=True):
     c = cfg_consts(run, cfg)
-    return {"pre": c["Pre"], "limit": c["Limit"], "replicas0": c["Replicas0"], "probe": probe}
+    return {"pre": c["Pre"], "limit": c["Limit"], "replicas0": c["Replicas0"], "budget": c["Budget"], "probe": probe}
 
 
 def _violated(r):
@@ -285,7 +285,8 @@ def replay(run, path):
         if e["wk"] != "-":
             st["w"] = [e["wk"], e["wi"]]
         steps.append(st)
-    beh = {"cfg": {"pre": cfg["pre"], "limit": cfg["limit"], "replicas0": cfg["replicas0"], "probe": True}, "steps": steps,
+    beh = {"cfg": {"pre": cfg["pre"], "limit": cfg["limit"], "replicas0": cfg["replicas0"], "budget": cfg.get("budget", 1),
+                   "probe": True}, "steps": steps,
            "tag": "replay:" + str(cfg.get("tag"))}
     files = record_ctl(run, [beh], prefix="replay")
     analyse_ctl(run, [beh], files)
